@@ -125,6 +125,22 @@ func run(c *vh.Ctx) error {
 		}
 	}
 
+	// ---- StateDB.GetProof / GetStorageProof (consumers of Prove with a retaining Putter) ----------------
+	nSP := c.N(25, 300)
+	for i := 0; i < nSP; i++ {
+		l := fmt.Sprintf("SPROOF %d %d", []int{3, 20, 60, 200}[c.R.Intn(4)], c.R.U64()%1000000)
+		fl, _, e := rn.runSeq([]string{l})
+		if e != nil {
+			return e
+		}
+		res.Count(l, true)
+		if fl != nil && reported < 9 {
+			reported++
+			rp := vh.WriteReplay(c.ReplayDir, "C13", fmt.Sprintf("stateproof-%d-%d", c.Seed, i), c.Seed, []string{fl.kind + ": " + fl.what}, []string{l})
+			res.Fail(fl.kind, "", fl.what, rp)
+		}
+	}
+
 	// ---- DeriveSha ---------------------------------------------------------------------------------
 	nDS := c.N(200, 2000)
 	for i := 0; i < nDS; i++ {
